@@ -873,3 +873,82 @@ func (p *Prog) ownersAllowed(fn *Func, pred func(*Func) bool, depth int) bool {
 	}
 	return true
 }
+
+// keyOwner: the function under whose name constructs of fn are keyed: fn itself, or, for an extracted block or a
+// new shared helper all of whose call sites are in one function, that function (so that an exception or a known
+// finding recorded for a construct keeps applying when the construct moves into a private helper).
+func (p *Prog) keyOwner(fn *Func) *Func {
+	for i := 0; i < 6; i++ {
+		if p.baselineKnown == nil || p.baselineKnown[fn.Name] || fn.Obj.Exported() {
+			break // a function of the reference tree keeps its own name
+		}
+		if hs := p.HelperSite(fn); hs != nil {
+			fn = hs.Caller
+			continue
+		}
+		if p.baselineKnown != nil && !p.baselineKnown[fn.Name] && !fn.Obj.Exported() {
+			var owner *Func
+			same := true
+			for _, cs := range p.CallSites(fn.Obj) {
+				if owner == nil {
+					owner = cs.Caller
+				} else if owner != cs.Caller {
+					same = false
+				}
+			}
+			if owner != nil && same && owner != fn {
+				fn = owner
+				continue
+			}
+		}
+		break
+	}
+	return fn
+}
+
+// sharedSitesOf: the call sites of a new shared private helper (nil for every other function).
+func (p *Prog) sharedSitesOf(fn *Func) []CallSite {
+	if p.helperOf == nil {
+		p.buildHelperIndex()
+	}
+	shared := false
+	for _, hs := range p.sharedHelpers {
+		for _, h := range hs {
+			if h == fn {
+				shared = true
+			}
+		}
+	}
+	if !shared {
+		return nil
+	}
+	return p.CallSites(fn.Obj)
+}
+
+// StateAtIn: the state at node n as seen from root.  When n lies in a new shared helper that root calls, the facts
+// and executed calls of root's call site are put in front of the helper's own (context of this caller); otherwise
+// it is StateAt of the function that owns n.
+func (p *Prog) StateAtIn(root *Func, n ast.Node) *State {
+	owner := p.EnclosingFunc(n.Pos())
+	if owner == nil {
+		return nil
+	}
+	local := p.StateAt(owner, n)
+	if owner == root || local == nil || p.HelperSite(owner) != nil {
+		return local
+	}
+	for _, cs := range p.sharedSitesOf(owner) {
+		if cs.Caller != root && !p.helperWithin(cs.Caller, root) {
+			continue
+		}
+		site := p.StateAt(cs.Caller, cs.Call)
+		if site == nil || site.Dead {
+			continue
+		}
+		out := &State{Env: local.Env, Dead: local.Dead}
+		out.Facts = append(append([]*Fact{}, site.Facts...), local.Facts...)
+		out.Done = append(append([]ast.Node{}, site.Done...), local.Done...)
+		return out
+	}
+	return local
+}
